@@ -322,8 +322,23 @@ BIG_ROOTS = ["eml", "dataset", "dataset", "dataTable", "project", "methods", "co
              "physical", "keywordSet", "geographicCoverage", "dataSource", "citation", "methodStep"]
 
 
+def dress(sp, pre, share=3):
+    """give about one node in `share` the fields that rules, recommendations and reference handling do not speak about: a
+    prefix bound in the node's own map to a foreign namespace, a qualified extra, tail text (not on the root).  A valid
+    tree stays valid; what a check expects of the tree stays what it was"""
+    for path, x in spec_nodes(sp):
+        if pre.chance(share):
+            x.setdefault("ns", {})["x"] = "http://example.org/extension"
+            x["p"] = "x"
+        if pre.chance(share):
+            x.setdefault("x", {})["x:note"] = "v"
+        if path and pre.chance(share):
+            x["t"] = " tail text "
+    return sp
+
+
 @st.composite
-def valid_spec(draw, element=None, max_nodes=60, max_depth=6, elements=None, avoid=()):
+def _valid_spec_plain(draw, element=None, max_nodes=60, max_depth=6, elements=None, avoid=()):
     T = tables()
     if element is None:
         pool = elements or sorted(e for e in T.known if T.cost[e] < INF)
@@ -382,6 +397,17 @@ def valid_spec(draw, element=None, max_nodes=60, max_depth=6, elements=None, avo
         return sp
 
     return gen(element, 0)
+
+
+@st.composite
+def valid_spec(draw, element=None, max_nodes=60, max_depth=6, elements=None, avoid=()):
+    """rule-guided valid tree; in a third of the cases some nodes are dressed in prefixes / extras / tails (see dress)"""
+    from .pre import Pre
+    pre = Pre(draw, 24)
+    sp = draw(_valid_spec_plain(element, max_nodes, max_depth, elements, avoid))
+    if pre.chance(3):
+        dress(sp, pre)
+    return sp
 
 
 # ------------------------------------------------------------------ arbitrary trees
